@@ -184,6 +184,8 @@ pub struct Registration {
 	pub secret: PaymentSecret,
 	pub min_value: Option<u64>,
 	pub step: u64,
+	/// a spontaneous payment: nothing was registered, the sender chose this preimage and put it in the onion
+	pub keysend: Option<PaymentPreimage>,
 }
 /// How a send deviates from an ordinary single payment of a fresh registration.
 #[derive(Clone, Debug, Default)]
@@ -205,6 +207,12 @@ pub struct SendOpts {
 	/// register with an expiry of one second (and this custom minimum final CLTV delta, if any), then let block
 	/// time pass until the registration has expired before the payment is sent: it must be refused
 	pub expired: Option<Option<u16>>,
+	/// a spontaneous payment (single part): the preimage travels in the onion, the recipient registered nothing
+	pub keysend: bool,
+	/// two-hop payments: change what the sender pays the forwarder (msat) / the CLTV delta it leaves it (blocks)
+	/// relative to the forwarder's advertised policy; negative values must be refused by the forwarder
+	pub skimp_fee: Option<i64>,
+	pub skimp_delta: Option<i32>,
 	pub class: &'static str,
 }
 
@@ -1106,6 +1114,14 @@ impl World {
 		for (k, (chans, amt)) in parts.iter().enumerate() {
 			let fc = opts.part_cltv.as_ref().and_then(|v| v.get(k).cloned()).unwrap_or(final_cltv);
 			let (mut p, d) = self.build_path(src, chans, *amt, fc, None);
+			if p.hops.len() == 2 {
+				if let Some(d) = opts.skimp_fee {
+					p.hops[0].fee_msat = (p.hops[0].fee_msat as i64 + d).max(0) as u64;
+				}
+				if let Some(d) = opts.skimp_delta {
+					p.hops[0].cltv_expiry_delta = (p.hops[0].cltv_expiry_delta as i64 + d as i64).max(0) as u32;
+				}
+			}
 			if opts.intercept && p.hops.len() == 2 {
 				let fwd = self.chans[chans[0]].peer_of(src);
 				p.hops[1].short_channel_id = self.nodes[fwd].mgr.get_intercept_scid();
@@ -1115,13 +1131,19 @@ impl World {
 		}
 		let reg = match opts.reg {
 			Some(r) => r,
+			None if opts.keysend => {
+				let preimage = PaymentPreimage(self.rng.bytes());
+				let hash = { use bitcoin::hashes::Hash as _; PaymentHash(bitcoin::hashes::sha256::Hash::hash(&preimage.0).to_byte_array()) };
+				self.regs.push(Registration { idx: self.regs.len(), dst, hash, secret: PaymentSecret([0; 32]), min_value: None, step: self.step, keysend: Some(preimage) });
+				self.regs.len() - 1
+			},
 			None => {
 				let (expiry_secs, custom_cltv) = match opts.expired {
 					Some(c) => (1u32, c),
 					None => (7200u32, None),
 				};
 				let (hash, secret, _) = self.nodes[dst].mgr.create_inbound_payment(opts.min_value, expiry_secs, custom_cltv, None).map_err(|_| "create_inbound_payment failed".to_string())?;
-				self.regs.push(Registration { idx: self.regs.len(), dst, hash, secret, min_value: opts.min_value, step: self.step });
+				self.regs.push(Registration { idx: self.regs.len(), dst, hash, secret, min_value: opts.min_value, step: self.step, keysend: None });
 				if opts.expired.is_some() {
 					// block time (600 s per block) passes the expiry and the two hours the library adds to it
 					self.note(format!("EXPIRE registration {} of node{} (custom final cltv delta {:?}): 15 blocks pass", self.regs.len() - 1, dst, custom_cltv));
@@ -1159,7 +1181,16 @@ impl World {
 		// (the record exists before the call so that monitors can attribute the HTLCs the call emits)
 		self.payments.push(PayRec { idx, id, hash, secret, src, dst, amt: total, parts: parts.iter().zip(first_amts.iter()).map(|(p, f)| (p.0.clone(), *f)).collect(), part_amts: parts.iter().map(|p| p.1).collect(), send_result: String::new(), step: self.step, reg, declared_total: declared, secret_ok, class: if opts.class.is_empty() { "plain" } else { opts.class }, final_cltv, height_at_send: height });
 		self.obs.push_back(Obs::Api { step: self.step, node: src, call: format!("sending_payment#{}", idx), result: String::new() });
-		let r = self.nodes[src].mgr.send_payment_with_route(route, hash, RecipientOnionFields::secret_only(secret, declared), id);
+		let r = match self.regs[reg].keysend {
+			Some(preimage) => {
+				let params = route.route_params.clone();
+				self.nodes[src].router.scripted.lock().unwrap().push_back(route);
+				let r = self.nodes[src].mgr.send_spontaneous_payment(Some(preimage), RecipientOnionFields::spontaneous_empty(declared), id, params, lightning::ln::outbound_payment::Retry::Attempts(0));
+				self.nodes[src].router.scripted.lock().unwrap().clear();
+				r.map(|_| ()).map_err(|e| format!("{:?}", e))
+			},
+			None => self.nodes[src].mgr.send_payment_with_route(route, hash, RecipientOnionFields::secret_only(secret, declared), id).map_err(|e| format!("{:?}", e)),
+		};
 		let res = format!("{:?}", r);
 		self.payments[idx].send_result = res.clone();
 		self.drain_taps();
